@@ -197,6 +197,11 @@ func (e *Exec) mergeVal(c *Term, a, b Value) (Value, bool) {
 				return nil, false
 			}
 		}
+		if av.Op == ORatio || bv.Op == ORatio {
+			an, ad := e.B.NumDen(av)
+			bn, bd := e.B.NumDen(bv)
+			return e.B.Ratio(e.B.Ite(c, an, bn), e.B.Ite(c, ad, bd)), true
+		}
 		return e.B.Ite(c, av, bv), true
 	case StructV:
 		bv, ok := b.(StructV)
